@@ -37,7 +37,7 @@ WORDS = ["up", "down", "left", "right", "uses"]
 
 
 def plan(tier, seed):
-    specs = [{"kind": "random", "n": 2000 if tier == "quick" else 20000} for _ in range(8 if tier == "quick" else 15)]
+    specs = [{"kind": "random", "n": 2000 if tier == "quick" else 90000} for _ in range(8 if tier == "quick" else 16)]
     specs.append({"kind": "directed"})
     return specs
 
